@@ -18,6 +18,16 @@ pub fn image_of(parser: &CooklangParser, input: &str) -> String {
     image_in_order(parser, input, false)
 }
 
+/// everything a user sees of the report: the rendered text (it includes the chain of source errors, which the fields
+/// compared above do not)
+fn rendered(report: &cooklang::error::SourceReport, input: &str) -> String {
+    let mut buf = Vec::new();
+    match report.write("recipe.cook", input, false, &mut buf) {
+        Ok(()) => String::from_utf8_lossy(&buf).into_owned(),
+        Err(e) => format!("<report not written: {e}>"),
+    }
+}
+
 /// the same image whichever of the two entry points is called first
 pub fn image_in_order(parser: &CooklangParser, input: &str, metadata_first: bool) -> String {
     let early = if metadata_first { Some(parser.parse_metadata(input)) } else { None };
@@ -27,6 +37,7 @@ pub fn image_in_order(parser: &CooklangParser, input: &str, metadata_first: bool
         s.push_str(&format!("{:?}|{:?}|{}|{:?}|{:?}\n", d.severity, d.stage, d.message, d.labels, d.hints));
     }
     s.push_str(&format!("valid={}\n", r.is_valid()));
+    s.push_str(&rendered(r.report(), input));
     if let Some(o) = r.output() {
         s.push_str(&serde_json::to_string(o).unwrap_or_else(|e| format!("<unserializable: {e}>")));
     }
@@ -71,6 +82,9 @@ fn options(opt: usize) -> cooklang::analysis::ParseOptions<'static> {
         },
         2 => ParseOptions { recipe_ref_check: None, metadata_validator: Some(Box::new(|_k, _v, _o| CheckResult::Error(vec!["refused by the validator".into()]))) },
         3 => ParseOptions { recipe_ref_check: Some(Box::new(|_name| CheckResult::Warning(vec!["not found".into()]))), metadata_validator: None },
+        // the same names judged differently by the checkers of different calls (each application knows its own folder)
+        4 => ParseOptions { recipe_ref_check: Some(Box::new(|_name| CheckResult::Ok)), metadata_validator: Some(Box::new(|_k, _v, _o| CheckResult::Ok)) },
+        5 => ParseOptions { recipe_ref_check: Some(Box::new(|_name| CheckResult::Error(vec!["no such recipe here".into()]))), metadata_validator: Some(Box::new(|_k, _v, _o| CheckResult::Warning(vec!["noted".into()]))) },
         _ => ParseOptions::default(),
     }
 }
@@ -85,6 +99,7 @@ pub fn image_with(parser: &CooklangParser, input: &str, opt: usize) -> String {
         s.push_str(&format!("{:?}|{:?}|{}|{:?}|{:?}\n", d.severity, d.stage, d.message, d.labels, d.hints));
     }
     s.push_str(&format!("valid={}\n", r.is_valid()));
+    s.push_str(&rendered(r.report(), input));
     if let Some(o) = r.output() {
         s.push_str(&serde_json::to_string(o).unwrap_or_else(|e| format!("<unserializable: {e}>")));
     }
@@ -199,6 +214,16 @@ pub fn pool() -> Vec<String> {
     for s in ["---\ntime: 1 h 30 m\n---\nCook.\n", ">> prep time: 25 mins\n>> cook time: 2 hrs\nx", "---\nduration: 1 h 30 m\ntime: 90 mins\n---\n", ">> time: 3 m\nBoil."] {
         v.push(s.to_string());
     }
+    // referenced recipes (what a recipe_ref_check is asked about); several repeated servings; characters whose code
+    // points agree in their low 16 bits (a word character / punctuation in one plane, not in the other)
+    for s in [
+        "Press the @@dough{1} in the tray.", "Roll out the @@dough{1} and add @@tomato sauce{100%g}.", "Serve with @./sides/rice{} and @@dough{}.",
+        "---\nservings: 2|4|2|4\n---\nMix @flour{200%g}.", ">> yield: 3|5|7|3|5|7\nx", "---\nserves: [1, 2, 3, 1, 2, 3]\ntags: [b, a, b, a]\n---\n",
+        "Das »@Mehl« in eine Schüssel sieben.", "Turn the tray x↫ and wait.", "Preheat the oven\u{F00AB} to 180 C.", "Nimm @Salz⑳ und @Öl\u{12473} dazu.", "Add @flour\u{1F9C2} then @salt\u{F9C2} and @x\u{2F9C2}.",
+        "Mix @a\u{10FFFF} #b\u{FFFF} ~c\u{E000}{1%min} and @d\u{1E000}.",
+    ] {
+        v.push(s.to_string());
+    }
     for s in ["Heat the #&pan{} first.", "Use the #&pot{} and the @&flour{} again.", "Add @&flour{} to the #&bowl{}.", ">> [mode]: steps\nUse #pan and @salt here.\n", ">> [duplicate]: ref\n#&lid{} then ~&rest{5%min}"] {
         v.push(s.to_string());
     }
@@ -245,7 +270,7 @@ fn sequential(ctx: &mut Ctx, pool: &[String], log: &mut Log, calls: usize) {
         let parser = &parsers[ci];
         let i = r.below(pool.len());
         // one call in three goes through parse_with_options / parse_metadata_with_options
-        let opt = if k % 3 == 1 { 1 + r.below(3) } else { 0 };
+        let opt = if k % 3 == 1 { 1 + r.below(5) } else { 0 };
         // one call in eight runs with a listener for every tracing level installed on this thread
         let listened = k % 8 == 5;
         let res = crate::core::guarded(|| {
@@ -399,7 +424,7 @@ fn threaded(ctx: &mut Ctx, pool: &[String], log: &mut Log, nthreads: usize, ops:
                 first.lock().unwrap().push(t);
                 for _ in 0..ops {
                     let i = keys[r.below(keys.len())];
-                    let opt = if with_options && r.below(3) == 0 { 1 + r.below(3) } else { 0 };
+                    let opt = if with_options && r.below(3) == 0 { 1 + r.below(5) } else { 0 };
                     let img = image_with(&parser, &pool_arc[i], opt);
                     local.push((t, i + 100_000 * opt, hash64(img.as_bytes())));
                 }
